@@ -100,6 +100,15 @@ theorem collapse_exact_canon (sel : SplitE → Bool)
   collapse_exact_splits (fun l => (canonSide t.tipNames l, lightSize t.tipNames l))
     (pair_permInv _ _ (canonSide_permInv _) (lightSize_permInv _)) sel selV rr rt t hsel hid h
 
+/-- The code's length criterion (`Crit.holds`, the stored value compared with `≤`, absent = −1) is the
+    DEFINITE criterion (a present length ≤ l) or the AMBIGUOUS one (no length at all and −1 ≤ l).  The
+    documentation ("branches with length <= threshold") does not say which reading of an absent length
+    is meant, so the oracle (`collapseOK`) demands the definite part only and accepts both fates of an
+    ambiguous branch; the model and the theorems follow the code. -/
+theorem code_criterion_readings (crit : Crit) (e : Ent) :
+    crit.holds e = (crit.definite e || crit.ambiguous e) ∧ (crit.ambiguous e = true → crit.definite e = false) :=
+  ⟨holds_eq_definite_or_ambiguous crit e, definite_ambiguous_excl crit e⟩
+
 /-- `CollapseShortBranches`: the criterion is `length ≤ l` ON THE STORED VALUE, so a branch
     without length (sentinel −1) is selected as soon as `l ≥ −1`. -/
 theorem collapseLen_exact {β : Type} (f : List String → β) (hf : PermInv f) (l : Rat)
@@ -505,27 +514,6 @@ theorem removeEdges_oracle (ids : List Int) (rr rt : Bool) (t : T)
     unfold keepV critV
     simp only [List.contains_iff_mem]
 
-/-- … and on a ROOTED tree without `removeRoot`, where the property makes no exact-set claim on the
-    two root branches and the oracle accordingly accepts either fate for a root branch that meets
-    the criterion: the model (which keeps them) passes. -/
-theorem collapse_rooted_oracle (crit : Crit) (sel : SplitE → Bool) (rt : Bool)
-    (d : NodeD) (p : Nat) (e1 e2 : EdgeD) (c1 c2 : T)
-    (hsel : ∀ s ∈ (T.node d p [(e1, c1), (e2, c2)]).splits,
-      sel s = critV crit (FF (T.node d p [(e1, c1), (e2, c2)]).tipNames s.below, s.e, s.tip))
-    (hid : uniqueIds (.node d p [(e1, c1), (e2, c2)]) = true)
-    (hns : (T.node d p [(e1, c1), (e2, c2)]).noSingle = true) :
-    collapseOK crit rt (.node d p [(e1, c1), (e2, c2)]) (collapse sel false rt (.node d p [(e1, c1), (e2, c2)])) = true := by
-  obtain ⟨c1', c2', heq, ho1, ho2, hl1, hl2, hf1, hf2, hd1, hd2⟩ :=
-    collapse_rooted (FF (T.node d p [(e1, c1), (e2, c2)]).tipNames) (FF_permInv _) sel (critV crit) rt d p e1 e2 c1 c2 hsel hid hns
-  rw [heq]
-  have hm1 : (⟨c1.leaves, e1, c1.isLeaf⟩ : SplitE) ∈ (T.node d p [(e1, c1), (e2, c2)]).splits := by
-    simp [T.splits, splitsL]
-  have hm2 : (⟨c2.leaves, e2, c2.isLeaf⟩ : SplitE) ∈ (T.node d p [(e1, c1), (e2, c2)]).splits := by
-    simp [T.splits, splitsL]
-  apply collapseOK_rooted_of crit rt d p e1 e2 _ _ c1 c2 c1' c2' hns _ _ ho1 ho2 hl1 hl2 hf1 hf2 hd1 hd2
-  · rw [holds_rootEnt, ← hsel _ hm1]
-  · rw [holds_rootEnt, ← hsel _ hm2]
-
 /-- … and on EVERY tree whose root is not a tip, without `removeRoot` — rooted or not, with or without
     single-child inner nodes: the branches the code protects (an end point with two neighbours) are
     the OPTIONAL part of the oracle; everything else is exact. -/
@@ -550,6 +538,34 @@ theorem collapse_general_oracle (crit : Crit) (sel : SplitE → Bool) (rt : Bool
   · exact removeEdges_tipNames false rt _ t
   · exact (removeEdges_leaves false rt _ t).2
   · exact collapse_exact_general (FF t.tipNames) (FF_permInv _) sel (critV crit) rt t hsel hid h1
+
+/-- … and on a ROOTED tree without `removeRoot`, where the property makes no exact-set claim on the
+    two root branches and the oracle accordingly accepts either fate for a root branch that meets
+    the criterion: the model (which keeps them) passes. -/
+theorem collapse_rooted_oracle (crit : Crit) (sel : SplitE → Bool) (rt : Bool)
+    (d : NodeD) (p : Nat) (e1 e2 : EdgeD) (c1 c2 : T)
+    (hsel : ∀ s ∈ (T.node d p [(e1, c1), (e2, c2)]).splits,
+      sel s = critV crit (FF (T.node d p [(e1, c1), (e2, c2)]).tipNames s.below, s.e, s.tip))
+    (hid : uniqueIds (.node d p [(e1, c1), (e2, c2)]) = true)
+    (hns : (T.node d p [(e1, c1), (e2, c2)]).noSingle = true) :
+    collapseOK crit rt (.node d p [(e1, c1), (e2, c2)]) (collapse sel false rt (.node d p [(e1, c1), (e2, c2)])) = true :=
+  collapse_general_oracle crit sel rt _ hsel hid (by simp)
+
+/-- … and for a root that is itself a tip (with or without `removeRoot`): the oracle, which treats the
+    branch of a tip-root as a tip branch, accepts the model there too — so `collapseOK` holds of the model
+    on EVERY tree with unique branch ids. -/
+theorem collapse_tiproot_oracle (crit : Crit) (sel : SplitE → Bool) (rr rt : Bool)
+    (d : NodeD) (p : Nat) (e : EdgeD) (c : T)
+    (hsel : ∀ s ∈ (T.node d p [(e, c)]).splits,
+      sel s = critV crit (FF (T.node d p [(e, c)]).tipNames s.below, s.e, s.tip))
+    (hid : uniqueIds (.node d p [(e, c)]) = true) :
+    collapseOK crit rt (.node d p [(e, c)]) (collapse sel rr rt (.node d p [(e, c)])) = true := by
+  obtain ⟨c', heq, ho, hl, _, hd⟩ :=
+    collapse_tiproot (FF (T.node d p [(e, c)]).tipNames) (FF_permInv _) sel (critV crit) rr rt d p e c hsel hid
+  rw [heq]
+  have hm : (⟨c.leaves, e, c.isLeaf⟩ : SplitE) ∈ (T.node d p [(e, c)]).splits := by simp [T.splits, splitsL]
+  apply collapseOK_tiproot_of crit rt rr d p e _ c c' _ ho hl hd
+  rw [holds_tipRootEnt, ← hsel _ hm]
 
 /- ## Resolve -/
 
@@ -648,6 +664,26 @@ theorem resolve_oracle (t t' : T) (draws : List Nat) (h : resolve t draws = some
     rw [hone] at this
     exact h1 (by simpa using this)
   exact resolveOK_of_obs t t' h1 h1' (resolve_tipNames t t' draws h) hd ex hnew hp hdist hbin (resolve_deg3 t t' draws h)
+
+/-- … and when the root is itself a tip (it is never resolved: one neighbour): `resolveOK` holds of the model
+    on EVERY tree. -/
+theorem resolve_tiproot_oracle (d : NodeD) (p : Nat) (e : EdgeD) (c t' : T) (draws : List Nat)
+    (h : resolve (.node d p [(e, c)]) draws = some t') : resolveOK (.node d p [(e, c)]) t' = true := by
+  have h' := resolve_some _ draws t' h
+  obtain ⟨k1, ds1, hk, hn⟩ := resolveT_unfold true d p [(e, c)] draws t' [] h'
+  obtain ⟨c1, dsx, r1, hc, hr, hk1⟩ := resolveL_unfold e c [] draws k1 ds1 hk
+  rw [resolveL] at hr
+  injection hr with hr; injection hr with hr1 hr2
+  subst hr1; subst hr2; subst hk1
+  have ht' : t' = .node d p [(e, c1)] := by
+    unfold resolveNode at hn
+    simp at hn
+    exact hn.1.symm
+  subst ht'
+  obtain ⟨hl, _, hd, ex, hnew, hobs⟩ :=
+    resolveT_spec (FF (T.node d p [(e, c)]).tipNames) (FF_permInv _) false c draws c1 dsx hc
+  obtain ⟨_, _, _, hdist, _⟩ := resolve_refines (fun _ => ()) permInv_unit _ _ draws h
+  exact resolveOK_tiproot_of d p e c c1 hl hd ex hnew hobs hdist (resolve_deg3 _ _ draws h)
 
 /-- The draw protocol.  The model of `Resolve` is defined EXACTLY on the draw lists that answer the
     `Intn` calls of the draw script of the tree (post-order, `Perm(l)` = `Intn(1)…Intn(l)` at every
